@@ -78,36 +78,6 @@ theorem reported_states_well_defined {c : Cfg} {s : State} (h : ReachableFresh c
   exact (hinv.protIff (r.peer, r.id)).2 (Or.inl (List.mem_map.2 ⟨r, hr, rfl⟩))
 
 -- ------------------------------------------------------------------ C23.agree (state part), proved
-theorem fresh_of_drained {s : State} {a : Action} (h : DrainStep s a) : FreshStep s a := by
-  cases a with
-  | recv p r =>
-    cases r with
-    | new id cfg =>
-      obtain ⟨⟨h1, _, _⟩, h2, h3⟩ := h
-      refine ⟨?_, ?_, ?_⟩
-      · intro hk
-        obtain ⟨r, hr, hrk⟩ := List.mem_map.1 hk
-        have hid : r.id = id := congrArg Prod.snd hrk
-        have : entOf s id ≠ none := by
-          unfold entOf lookup
-          cases hf : s.table.find? (·.id == id) with
-          | none =>
-            have := List.find?_eq_none.1 hf r hr
-            simp [hid] at this
-          | some r' => simp
-        exact this h1
-      · intro hk
-        exact h2 (List.mem_map.2 ⟨(p, id), hk, rfl⟩)
-      · intro hk
-        exact h3 (p, id) hk rfl
-    | _ => trivial
-  | _ => trivial
-
-theorem reachableFresh_of_drained {c : Cfg} {s : State} (h : ReachableDrained c s) : ReachableFresh c s := by
-  induction h with
-  | init => exact ReachableFresh.init
-  | step _ hd hs ih => exact ReachableFresh.step ih (fresh_of_drained hd) hs
-
 theorem find_of_mem_nodup (l : List Resp) (hn : (l.map (·.id)).Nodup) {r : Resp} (hr : r ∈ l) :
     l.find? (·.id == r.id) = some r := by
   induction l with
